@@ -108,6 +108,11 @@ def monitor(c):
     if c.fd_obs is None:
         return out
     head = term_head(c.term)
+    if c.fd_obs[0] == 'escape':
+        # "in every other case it raises ConvertError": anything else leaving from_data is neither verdict
+        e = c.fd_obs[1]
+        out.append((f'C01:{head}:neither-value-nor-ConvertError:{type(e).__name__}',
+                    f'from_data({c.value!r}, {c.built.py!r}) raised {type(e).__name__}: {str(e)[:120]!r} instead of returning a value or raising ConvertError', None))
     if c.fd_obs[0] == 'ok':
         r = typed_ok(c.term, c.fd_obs[1])
         if r:
@@ -152,7 +157,9 @@ def run(ctx, out):
                 'the result is the deep exactly-typed image (runtime classes at every depth, enum members, instances with converted '
                 'fields, factories called), verdict and value are stable under re-evaluation and under re-spelling of the type; '
                 'accept/reject itself is decided against the Coq model by corr_convert. Non-trivial = non-leaf type.')
-    convprop.run(ctx, out, PROP, monitor, twins=True, cfg={'weights': {'class': 2.0, 'std': 0.8}})
+    import gen
+    convprop.run(ctx, out, PROP, monitor, twins=True, cfg={'weights': {'class': 2.0, 'std': 0.8}},
+                 extra_cases=lambda rng: convprop.cases_from_pairs(gen.std_kind_cases(rng), rng, 'library-types'))
 
 
 def replay(rep, out):
